@@ -732,7 +732,6 @@ func checkSingleDocument(e *Env, p *load.Program) {
 	r.Floor("E4.profile(writes of the YAML writers)", nWrites, 1)
 }
 
-
 // derivesFromValue: v is x, or a conversion / interface wrapping / variadic packing of it.
 func derivesFromValue(v, x ssa.Value, depth int) bool {
 	if depth > 5 || v == nil || x == nil {
